@@ -314,7 +314,7 @@ def gen_spec(rng, profile=None, uid=None):
         # H7: plain callbacks of an async-engine machine get a coroutine back from send();
         # nested sends are therefore placed in coroutine callbacks only
         for cb in cbs.values():
-            if not cb["async"]:
+            if not cb["async"] and not P.get("sync_sends_on_async"):
                 cb["script"].pop("sends", None)
     allow = P["allow"] if P["allow"] is not None else (rng.random() < 0.3)
     # guards of a transition written as ONE boolean expression (g1 and g2 and not u1) instead of
